@@ -449,7 +449,7 @@ def explore_case(T, case, max_paths=400):
         return thunk, (env, mk)
 
     t0 = time.time()
-    paths = C.explore(run, max_paths=max_paths)
+    paths = C.explore(run, max_paths=getattr(case, "max_paths", max_paths))
     return CaseRun(case, paths, holder["mk"], time.time() - t0)
 
 
